@@ -61,12 +61,16 @@ var discardLogger = slog.New(slog.NewTextHandler(io.Discard, nil))
 // ---------------------------------------------------------------------------------------------
 // case
 
-var bucketOps = []string{
-	"Copy", "Copy", "CopyPath", "CopyReadObject", "CopyReader", "PutPath", "ForWriteObject",
-	"Untar", "Unzip", "PutFileSet", "ModuleStore", "ModuleStore", "PutBufYAML", "PutBufLock",
-	"LimitCopy", "ResponseWriter",
+// allOps lists every operation with its share of the case budget (quick, thorough totals).
+var allOps = []struct {
+	name            string
+	quick, thorough int
+}{
+	{"Copy", 48, 900}, {"CopyPath", 14, 250}, {"CopyReadObject", 12, 200}, {"CopyReader", 14, 250},
+	{"PutPath", 12, 200}, {"ForWriteObject", 14, 250}, {"LimitCopy", 14, 250}, {"Untar", 14, 250},
+	{"Unzip", 14, 250}, {"PutFileSet", 14, 250}, {"ModuleStore", 32, 600}, {"PutBufYAML", 12, 150},
+	{"PutBufLock", 12, 150}, {"ResponseWriter", 14, 250}, {"Tar", 16, 250}, {"Zip", 16, 250},
 }
-var writerOps = []string{"Tar", "Zip"}
 
 type faultSpec struct {
 	Mode    string `json:"mode"` // fail | crash | writer | budget | limit
@@ -99,13 +103,8 @@ func (c opCase) canon() string {
 	return string(b)
 }
 
-func genCase(t *rapid.T) opCase {
-	c := opCase{}
-	if rapid.IntRange(0, 7).Draw(t, "writerop") == 0 {
-		c.Op = rapid.SampledFrom(writerOps).Draw(t, "op")
-	} else {
-		c.Op = rapid.SampledFrom(bucketOps).Draw(t, "op")
-	}
+func genCase(t *rapid.T, op string) opCase {
+	c := opCase{Op: op}
 	c.Objects = faultx.GenFiles(t, 1, 10)
 	c.SrcDisk = rapid.IntRange(0, 3).Draw(t, "srcdisk") == 0
 	c.DstDisk = rapid.IntRange(0, 2).Draw(t, "dstdisk") == 0
@@ -620,7 +619,11 @@ func sweepBucketOp(c opCase, p *prep, only *faultSpec, st *sweepStats, fail func
 			if he != nil || !goOn {
 				return he
 			}
-			evid.R().Class("fault:" + clean.events[k].KindS + "/" + v.String())
+			if c.Par > 1 {
+				evid.R().Class("fault:parallel(any-kind)/" + v.String())
+			} else {
+				evid.R().Class("fault:" + clean.events[k].KindS + "/" + v.String())
+			}
 		}
 		goOn, he := try(faultSpec{Mode: "crash", K: k})
 		if he != nil || !goOn {
@@ -782,46 +785,53 @@ var totalPositions, totalInterior, totalRuns int
 
 func TestFaultSweep(t *testing.T) {
 	r := evid.R()
-	r.Check(t, r.Scale(160, 4200), 1, func(t *rapid.T) {
-		c := genCase(t)
-		var st sweepStats
-		he := runCase(c, &st, func(key, msg string, cc opCase) bool {
-			return r.Fail(t, key, msg, cc)
+	for i, op := range allOps {
+		t.Run(op.name, func(t *testing.T) {
+			r.Check(t, r.Scale(op.quick, op.thorough), 10+i, func(t *rapid.T) {
+				sweepOneCase(t, r, genCase(t, op.name))
+			})
 		})
-		if he != nil {
-			t.Fatalf("harness: %s (case %s)", he.msg, c.canon())
-		}
-		totalPositions += st.positions
-		totalInterior += st.interior
-		totalRuns += st.runs
-		r.Class("op:" + c.Op)
-		if isWriterOp(c.Op) {
-			r.Class("dest:writer")
-		} else if c.DstDisk {
-			r.Class("dest:disk")
-		} else {
-			r.Class("dest:mem")
-		}
-		if c.Par > 1 {
-			r.Class("parallel-copy")
-		}
-		if c.Atomic {
-			r.Class("atomic-option")
-		}
-		if c.Pre != 0 {
-			r.Class("stale-destination")
-		}
-		r.ClassN("runs:fault-fired", st.fired)
-		r.ClassN("runs:fault-not-reached", st.notReached)
-		r.ClassN("runs:error-returned", st.errReturned)
-		if st.interior > 0 {
-			r.NonTrivial(c.canon())
-			r.Sample(map[string]any{"op": c.Op, "objects": len(c.Objects), "dst_disk": c.DstDisk, "atomic": c.Atomic, "par": c.Par, "events": st.positions, "runs": st.runs})
-		}
-	})
+	}
 	r.Extra("fault_positions_enumerated", totalPositions)
 	r.Extra("interior_fault_positions", totalInterior)
 	r.Extra("faulted_runs", totalRuns)
+}
+
+func sweepOneCase(t *rapid.T, r *evid.Recorder, c opCase) {
+	var st sweepStats
+	he := runCase(c, &st, func(key, msg string, cc opCase) bool {
+		return r.Fail(t, key, msg, cc)
+	})
+	if he != nil {
+		t.Fatalf("harness: %s (case %s)", he.msg, c.canon())
+	}
+	totalPositions += st.positions
+	totalInterior += st.interior
+	totalRuns += st.runs
+	r.Class("op:" + c.Op)
+	if isWriterOp(c.Op) {
+		r.Class("dest:writer")
+	} else if c.DstDisk {
+		r.Class("dest:disk")
+	} else {
+		r.Class("dest:mem")
+	}
+	if c.Par > 1 {
+		r.Class("parallel-copy")
+	}
+	if c.Atomic {
+		r.Class("atomic-option")
+	}
+	if c.Pre != 0 {
+		r.Class("stale-destination")
+	}
+	r.ClassN("runs:fault-fired", st.fired)
+	r.ClassN("runs:fault-not-reached", st.notReached)
+	r.ClassN("runs:error-returned", st.errReturned)
+	if st.interior > 0 {
+		r.NonTrivial(c.canon())
+		r.Sample(map[string]any{"op": c.Op, "objects": len(c.Objects), "dst_disk": c.DstDisk, "atomic": c.Atomic, "par": c.Par, "events": st.positions, "runs": st.runs})
+	}
 }
 
 // TestReplay re-runs the oracle on a saved case: the single recorded fault if there is one,
